@@ -152,3 +152,93 @@ Proof.
     eexists. split; [vm_compute; reflexivity|].
     repeat (split; [vm_compute; reflexivity|]). vm_compute; reflexivity.
 Qed.
+
+(* ---------- multi-carrier composition: the premise of the stream theorems, proved from the carrier layer ---------- *)
+From Snow Require Import Proofs.CarrierOnceProofs Proofs.CarrierFragProofs Proofs.CarrierMultiProofs Proofs.PacketPathMultiProofs.
+
+(* [C01_upstream_stream_prefix] ASSUMES that every packet handed to the receiving endpoint was queued from some one
+   fresh carrier fed an honest, cut stream. Here that composition is PROVED over the server's carrier layer [srun],
+   for every schedule [ops]: any number of carriers of this and of other sessions, arrivals interleaved and
+   fragmented in any way, closes at any point, carriers of the same session overlapping. *)
+
+(* one carrier among many: when the bytes sent on carrier i are a prefix of an honest carrier stream, what it queued
+   is exactly [queued_from] at the cut it had read (all that was sent while it is alive) *)
+Theorem C01_carrier_queued_from : forall ops i k cid w,
+  nth_error (carriers (srun ops)) i = Some k ->
+  is_prefix (sent_on i ops) (carrier_stream cid w) ->
+  exists cut, k_up k = queued_from cid w cut /\ (k_state k <> K_Dead -> cut = length (sent_on i ops)).
+Proof. exact carrier_queued_from. Qed.
+
+(* packet integrity for the whole session: if every carrier that presented ClientID [cid] was sent a prefix of an
+   honest sender's stream (token, cid, framed packets of the session's sending endpoint), every packet that
+   surfaces under [cid] — read by KCP or still queued — is one of that endpoint's packets *)
+Theorem C01_session_packets_are_senders : forall ops cid sent p,
+  length cid = 8%nat -> honest_carriers ops cid sent ->
+  In (p, cid) (surfaced (srun ops)) -> In p sent.
+Proof. exact session_packets_are_senders. Qed.
+
+(* the stream theorems with the composition discharged: no premise about single carriers is left, only the schedule
+   hypothesis [honest_carriers] (upstream) / what the server's endpoint wrote (downstream), and the ARQ hypothesis *)
+Theorem C01_upstream_stream_prefix_multi_carrier :
+  forall (packets_of : bytes -> list bytes -> Prop) (stream_of : list bytes -> bytes),
+  (forall written sent recv, packets_of written sent -> (forall p, In p recv -> In p sent) ->
+     is_prefix (stream_of recv) written) ->
+  forall written sent cid ops recv,
+    length cid = 8%nat -> packets_of written sent -> honest_carriers ops cid sent ->
+    (forall p, In p recv -> In (p, cid) (surfaced (srun ops))) ->
+    is_prefix (stream_of recv) written.
+Proof. exact upstream_stream_prefix_multi. Qed.
+
+Theorem C01_downstream_stream_prefix_multi_carrier :
+  forall (packets_of : bytes -> list bytes -> Prop) (stream_of : list bytes -> bytes),
+  (forall written sent recv, packets_of written sent -> (forall p, In p recv -> In p sent) ->
+     is_prefix (stream_of recv) written) ->
+  forall written sent cid ops recv,
+    packets_of written sent ->
+    (forall p, In (cid, p) (accepted (srun ops)) -> In p sent) ->
+    (forall p, In p recv -> exists i k cut sc, nth_error (carriers (srun ops)) i = Some k /\ k_cid k = cid /\
+                                            In p (read_from (k_wire k) cut sc)) ->
+    is_prefix (stream_of recv) written.
+Proof. exact downstream_stream_prefix_multi. Qed.
+
+(* ... and with the toy ARQ for the library: nothing hypothetical left but the schedule *)
+Theorem C01_upstream_stream_prefix_multi_carrier_toy_arq : forall conv written sent cid ops recv,
+  length cid = 8%nat -> toy_packets_of conv written sent -> honest_carriers ops cid sent ->
+  (forall p, In p recv -> In (p, cid) (surfaced (srun ops))) ->
+  is_prefix (toy_stream_of conv recv) written.
+Proof.
+  intros conv. exact (upstream_stream_prefix_multi (toy_packets_of conv) (toy_stream_of conv) (toy_arq_safe conv)).
+Qed.
+
+(* the session's packets surface in an order-preserving merge of the carriers' decoded sequences *)
+Theorem C01_session_packets_in_order : forall ops c,
+  subseq (map fst (filter (tagged c) (surfaced (srun ops)))) (pkts_of (filter (entry_cid c) (offered ops))).
+Proof. exact session_packets_in_order. Qed.
+
+(* non-vacuity: a session (ClientID c1) over two OVERLAPPING carriers — carrier 0 is cut inside its second packet,
+   carrier 1 re-sends the second packet — next to a carrier of another session: the hypothesis [honest_carriers]
+   holds of this schedule, and what surfaces under c1 is packet 1 from carrier 0, then packet 2 from carrier 1. *)
+Definition c01_two_carriers : list sop :=
+  let c1 := [1;2;3;4;5;6;7;8] in let c2 := [9;9;9;9;9;9;9;9] in
+  [S_New; S_New; S_New;
+   S_Recv 0 (TOKEN ++ c1 ++ [131; 65; 66]); S_Recv 1 (TOKEN ++ c1); S_Recv 2 (TOKEN ++ c2 ++ [129; 90]);
+   S_Recv 0 [67; 130; 68]; S_Recv 1 [130; 68; 69]; S_Close 0].
+
+Example C01_multi_carrier_example :
+  let c1 := [1;2;3;4;5;6;7;8] in
+  let sent := [[65;66;67]; [68;69]] in
+  honest_carriers c01_two_carriers c1 sent /\
+  map fst (filter (tagged c1) (surfaced (srun c01_two_carriers))) = [[65;66;67]; [68;69]] /\
+  sent_on 0 c01_two_carriers = TOKEN ++ c1 ++ [131; 65; 66; 67; 130; 68] /\
+  pkts_of (filter (entry_cid c1) (offered c01_two_carriers)) = [[65;66;67]; [68;69]].
+Proof.
+  cbn zeta. split; [|vm_compute; repeat split].
+  intros i k Hk Hcid Hnp.
+  destruct i as [|[|[|i]]].
+  - exists [[65;66;67]; [68;69]], [131;65;66;67;130;68;69]. split; [reflexivity|]. split; [intros p H; exact H|].
+    exists [69]. vm_compute. reflexivity.
+  - exists [[68;69]], [130;68;69]. split; [reflexivity|]. split; [intros p [<-|[]]; right; left; reflexivity|].
+    exists []. vm_compute. reflexivity.
+  - exfalso. vm_compute in Hk. injection Hk as <-. vm_compute in Hcid. discriminate.
+  - exfalso. vm_compute in Hk. destruct i; discriminate.
+Qed.
